@@ -1149,6 +1149,17 @@ static std::string site_of(const std::string& name) {
   return "Grid::" + name.substr(0, name.find('('));
 }
 
+// quick_equivalence_test compares two minimized congruence systems without equalities syntactically
+static std::string eq_trigger(const Grid& a, const Grid& b) {
+  if (a.space_dim != b.space_dim || a.space_dim == 0 || a.status.test_empty() || b.status.test_empty()) return "none";
+  if (a.status.test_c_minimized() && b.status.test_c_minimized() && a.con_sys.num_equalities() == 0 && b.con_sys.num_equalities() == 0
+      && a.con_sys.num_rows() == b.con_sys.num_rows() && !(a.con_sys == b.con_sys))
+    return "both_congruence_systems_minimized_without_equalities_and_syntactically_different";
+  if (a.status.test_g_minimized() && b.status.test_g_minimized() && a.gen_sys.num_lines() == 0 && b.gen_sys.num_lines() == 0
+      && a.gen_sys.num_rows() == b.gen_sys.num_rows() && !(a.gen_sys == b.gen_sys))
+    return "both_generator_systems_minimized_without_lines_and_syntactically_different";
+  return "none";
+}
 static void run_queries_on(int s, long long& sub, long long sub_start) {
   const State& st = ST[s];
   for (size_t qi = 0; qi < QS.size(); ++qi) {
@@ -1182,6 +1193,7 @@ static void run_queries_on(int s, long long& sub, long long sub_start) {
       if (!okk) {
         std::string site = site_of(q.name);
         std::string trig = trigger_for_query(q, *st.g, st.cls, got, want);
+        if ((q.name == "operator==" || q.name == "operator!=") && o >= 0 && want == (q.name == "operator==" ? "true" : "false")) trig = eq_trigger(*st.g, *ST[o].g);
         std::string clause = (got == "false,outputs-modified" && want == "false") ? "query:outputs-modified-although-false-returned" : "query:answer!=model";
         if (violcap().admit(site + "|" + clause + "|" + trig))
           report_violation(site, clause, trig, input_json(s, q.name, o), got, expected);
@@ -1763,8 +1775,9 @@ static void eq_ask(const EqVar& x, const EqVar& y, bool same) {
     j.str("op", neq ? "operator!=" : "operator==").str("receiver", x.how).str("operand", y.how).str("receiver_value", cstr(x.cls)).str("operand_value", cstr(y.cls))
      .str("signature", signature(*x.g)).str("operand_signature", signature(*y.g));
     std::string site = neq ? "Grid::operator!=" : "Grid::operator==";
-    if (r != want && violcap().admit("eq|" + site + (same ? "|same" : "|diff")))
-      report_violation(site, same ? "query:equal-grids-reported-different" : "query:different-grids-reported-equal", "none", j.done(), r ? "true" : "false", want ? "true" : "false");
+    std::string trig = same ? eq_trigger(*x.g, *y.g) : std::string("none");
+    if (r != want && violcap().admit("eq|" + site + (same ? "|same|" : "|diff|") + trig))
+      report_violation(site, same ? "query:equal-grids-reported-different" : "query:different-grids-reported-equal", trig, j.done(), r ? "true" : "false", want ? "true" : "false");
     std::string m = stored_mismatch(*a, x.cls) + stored_mismatch(*b, y.cls);
     if (!m.empty() && violcap().admit("eq|changed|" + site)) report_violation(site, "value:changed-by-query", "none", j.done(), m, "unchanged");
   }
